@@ -139,4 +139,49 @@ theorem c06_gen_Unregister_eq (ts : Gen.C06.treeStorage) (id : Nat) :
       | some t =>
         have e1 : ((some (some t)) == some (none : Option Tree)) = false := by simp
         simp [h, e1]
+
+/-- a roster of the model as the translated `Roster` sees it: no entry is the nil pointer, every entry carries
+its `ID` field -/
+def rosterOf (l : List Server) : Gen.C06.Roster := { List := l.map fun s => some { ID := s.sid } }
+
+/-- what `Roster.Search` returns for the model's answer: position and entry, or `-1, nil` -/
+def searchResult : Option (Nat × Server) → Int × Option Gen.C06.ServerIdentity
+  | some (i, s) => (Int.ofNat i, some { ID := s.sid })
+  | none => (-1, none)
+
+private theorem search_from (l : List Server) (sid n : Nat) :
+    (match Gen.Rt.rangeReturn (Gen.Rt.enumFrom n (l.map fun s => some ({ ID := s.sid } : Gen.C06.ServerIdentity)))
+        (fun p => match p.2 with
+          | none => some none
+          | some e => if (e.ID == sid) then some (some (p.1, p.2)) else none) with
+      | some r => r
+      | none => some ((-1 : Int), none)) =
+    some (searchResult ((search l sid).map fun (i, e) => (i + n, e))) := by
+  induction l generalizing n with
+  | nil => rfl
+  | cons s rest ih =>
+    simp only [List.map_cons, Gen.Rt.enumFrom, Gen.Rt.rangeReturn, List.findSome?_cons, search]
+    by_cases h : s.sid = sid
+    · simp [h, searchResult]
+    · have hb : (s.sid == sid) = false := by simp [h]
+      simp only [hb, Bool.false_eq_true, if_false, h]
+      have := ih (n + 1)
+      simp only [Gen.Rt.rangeReturn] at this
+      rw [this]
+      cases search rest sid with
+      | none => rfl
+      | some p => obtain ⟨i, e⟩ := p; simp [searchResult]; omega
+
+/-- **`Roster.Search` as translated is the model's `search`** on a roster without nil entries: it does not panic
+and returns the position and the entry of the first server whose `ID` field is the id, `-1, nil` when there is
+none (a nil entry before the hit is the panic outcome: the loop reads `e.ID`) -/
+theorem c06_gen_Roster_Search_eq (l : List Server) (sid : Nat) :
+    Gen.C06.Roster_Search (rosterOf l) sid = some (searchResult (search l sid)) := by
+  have := search_from l sid 0
+  simp only [Nat.add_zero] at this
+  have e : ((search l sid).map fun (p : Nat × Server) => (p.1, p.2)) = search l sid := by
+    cases search l sid <;> rfl
+  unfold Gen.C06.Roster_Search Gen.Rt.enum rosterOf
+  rw [← e]
+  exact this
 end C06
